@@ -152,11 +152,11 @@ func (C19) Execute(sc *core.Scenario, keepLog bool) *core.Result {
 	res := RunInBubble("C19", sc, keepLog, cfg, func(e *Env) {
 		baseline = runtime.NumGoroutine()
 		type sess struct {
-			s      *world.Sess
-			user   int
-			sel    bool
-			stall  bool
-			idle   bool
+			s       *world.Sess
+			user    int
+			sel     bool
+			stall   bool
+			idle    bool
 			idleTag string
 		}
 		var ss []*sess
